@@ -275,7 +275,7 @@ func applyFreeList(ctx context.Context, freeList *freelist.FreeList, filePath st
 
 			offset := int64(free.Offset)
 
-			if offset > primarySize {
+			if offset+sizePrefixSize > primarySize {
 				log.Errorw("freelist record has out-of-range primary offset", "offset", offset, "fileSize", primarySize)
 				continue // skip bad freelist entry
 			}
